@@ -29,3 +29,6 @@ prop("C09", "property-based testing (proptest) over all ordered type pairs of a 
 prop("C13", "property-based testing (proptest) over all ordered type pairs with values embedded at the target's bounds, against the reference integer's range test",
      "Generated search over TryFrom<bnum> for 12 primitives, BTryFrom for 1024 ordered bnum pairs (+ large configurations), From/TryFrom from every primitive/bool/char into every sufficiently wide type of the 72, and the digit-array API; Ok <=> representable with equal value, never panics.",
      COMMON_NOTE)
+prop("C10", "grammar-based property testing (proptest) with an outcome-set oracle (parse model validated against the primitives); every radix in every run",
+     "Generated search for all 72 types: sign/zeros/digits strings for radix 2..=36 and digit slices for radix 2..=256 built from boundary values and capacity-length digit strings, redundant leading zeros up to twice the capacity, one foreign byte injected at start/middle/end (short and long), lone/double signs, invalid UTF-8, out-of-range radices. The oracle returns the set of outcomes the property allows, so long invalid strings never cause false alarms. Found and repaired the radix 2/4/16 leading-zero defect.",
+     COMMON_NOTE + " The parse model is compared with u8/i8/u64/i64::from_str_radix on a fixed corpus at start-up.")
